@@ -319,6 +319,49 @@ example : ∃ s1 s2, stepSimple exStK (.mvK 2 0) = some (s1, "ok") ∧ stepSimpl
     ∧ s2.impls = exStK.impls ∧ aget s2.K 2 = some (some 5) := by
   refine ⟨_, _, rfl, rfl, rfl, ?_⟩; decide
 
+/-! ### scoped connections owned by a functor (`ownK`) -/
+
+/-- moving a scoped_connection into a functor (the functor then owns it) transfers the responsibility
+    without disconnecting: the name is released, the held cell id is kept under a fresh owner id, no list,
+    no plain connection changes -/
+theorem ownK_transfers (s : St) (isVoid : Bool) (fid k : Nat) (p : Option Nat) (hk : aget s.K k = some p) :
+    ∃ s', mkFun s isVoid (.ownK fid k) = .ok (.owner fid [] [s.next], s') ∧
+      s'.impls = s.impls ∧ s'.C = s.C ∧ s'.K = adel s.K k ∧ s'.ownedK = (s.next, p) :: s.ownedK ∧ s'.next = s.next + 1 := by
+  refine ⟨{ s with next := s.next + 1, K := adel s.K k, ownedK := (s.next, p) :: s.ownedK }, by simp [mkFun, hk, St.fresh],
+    rfl, rfl, rfl, rfl, rfl⟩
+
+example : ∃ s', mkFun exStK false (.ownK 9 0) = .ok (.owner 9 [] [7], s') ∧ s'.K = [(1, some 6)] ∧ s'.ownedK = [(7, some 5)] :=
+  ⟨_, rfl, rfl, rfl⟩
+
+/-- when the last functor copy owning a scoped_connection is gone, `~scoped_connection` runs: exactly the
+    held slot is disconnected (and nothing, if it held none) -/
+theorem owned_scoped_dies_with_last_functor (s : St) (k : Nat) (p : Option Nat)
+    (hT : s.ownedT.find? (fun o => !heldT s o) = none)
+    (hK : s.ownedK.find? (fun q => !heldK s q.1) = some (k, p)) :
+    collectStep s = some (discOpt { s with ownedK := s.ownedK.filter (fun q => q.1 ≠ k) } p) := by
+  unfold collectStep
+  simp only [hT, hK]
+  cases p <;> rfl
+
+/-- … and as long as some functor copy still holds it, or nothing is owned, nothing is disconnected -/
+theorem owned_scoped_lives_while_held (s : St)
+    (hT : s.ownedT.find? (fun o => !heldT s o) = none)
+    (hK : s.ownedK.find? (fun q => !heldK s q.1) = none) :
+    collectStep s = none ∧ collect s = s := by
+  have h1 : collectStep s = none := by
+    unfold collectStep; simp only [hT, hK]
+  refine ⟨h1, ?_⟩
+  unfold collect
+  cases (s.ownedT.length + s.ownedK.length) with
+  | zero => rfl
+  | succ n => simp [collectN, h1]
+
+example : collectStep { exStK with ownedK := [(7, some 5)] } =
+    some (disconnectCell { exStK with ownedK := [] } 5) := by
+  rw [owned_scoped_dies_with_last_functor _ 7 (some 5) rfl (by decide)]
+  rfl
+
+
 /-! ### the specification `S` (statement level: a disconnected slot leaves its list immediately) -/
 
 /-- in `S`, destruction and explicit disconnect remove exactly the held slot from its list -/
